@@ -25,6 +25,7 @@ TRANSPARENT = set(norm(p) for p in [
     "std::option::Option::<T>::as_ref", "std::option::Option::<T>::as_mut",
     "std::option::Option::<T>::unwrap", "std::option::Option::<T>::expect",
     "std::result::Result::<T, E>::unwrap", "std::result::Result::<T, E>::expect",
+    "std::option::Option::<T>::ok_or", "std::option::Option::<T>::ok_or_else",
     "std::mem::ManuallyDrop::<T>::into_inner", "std::mem::ManuallyDrop::<T>::new",
     "std::ops::Try::branch", "std::result::Result::<T, E>::map_err", "std::path::Path::new",
     "std::vec::Vec::<T, A>::as_slice", "core::slice::<impl [T]>::to_vec", "std::slice::<impl [T]>::to_vec",
@@ -44,6 +45,10 @@ ITER_PRESERVING = set(norm(p) for p in [
     "std::iter::Iterator::skip_while", "std::iter::Iterator::take_while", "std::iter::Iterator::peekable",
     "std::iter::Iterator::by_ref", "std::iter::Iterator::fuse", "std::iter::Iterator::inspect",
     "std::iter::Iterator::step_by", "std::vec::Vec::<T, A>::iter", "std::collections::VecDeque::<T, A>::iter",
+])
+
+MAP_FAMILY = set(norm(p) for p in [
+    "std::result::Result::<T, E>::map", "std::option::Option::<T>::map",
 ])
 
 OR_DEFAULT = set(norm(p) for p in [
@@ -181,6 +186,18 @@ class Slicer(object):
             return self._operand(t["args"][0], path, visiting)
         if p in OR_DEFAULT and len(t["args"]) == 2:
             return self._operand(t["args"][0], path, visiting) | self._operand(t["args"][1], path, visiting)
+        # `.map(|(a, _, c)| (a, c))`: a closure that only re-packs components of its parameter
+        if p in MAP_FAMILY and len(t["args"]) == 2 and self.follow_local:
+            cl = [l for l in self._operand(t["args"][1], (), visiting)]
+            if len(cl) == 1 and cl[0][0] == "agg" and str(cl[0][1]).startswith("closure:"):
+                cb = self.prog.bodies.get(cl[0][1][len("closure:"):])
+                if cb is not None and len(cb.blocks) <= 12:
+                    sub = Slicer(self.world, cb).leaves_of_place({"l": 0, "p": []}, tuple(path))
+                    if sub and all(x[0] == "param" and x[1] == 2 for x in sub):
+                        out = set()
+                        for x in sub:
+                            out |= self._operand(t["args"][0], tuple(x[2]), visiting)
+                        return out
         # a crate-local function whose result is (a newtype of / a field of) its parameters only
         c = t.get("callee") or {}
         if self.follow_local and c.get("rk") == "item" and c.get("rlocal"):
